@@ -73,6 +73,8 @@ type Env struct {
 	// GRPCRequestHook, if set, is called first; returning true drops the request: the service is
 	// not called at all and the caller gets an Unavailable error.
 	GRPCRequestHook func(method string, req proto.Message) (dropRequest bool)
+	// GRPCAfterHook, if set, runs after the service handled the request, before the response is returned.
+	GRPCAfterHook func(method string, req proto.Message)
 
 	mu        sync.Mutex
 	svc       *service.OrdaService
